@@ -293,3 +293,138 @@ def snet_of_model(m):
     edges = ['(%s, %s, %s)' % (cstr(u), cstr(v), cparam(d['param'])) for u, v, d in g.edges(data=True)]
     obs = ['(%s, %s)' % (cstr(k), cvalue(v)) for k, v in m.observed.items()]
     return '{| s_nodes := %s; s_edges := %s; s_observed := %s |}' % (clist(nodes), clist(edges), clist(obs))
+
+
+# ---- graphs whose edges are attached through the explicit GraphicalModel.add_edge API (C03, wave 3) -----------
+
+def gen_explicit_spec(rng, n_nodes=None):
+    """A well-formed model in which part of the edges are attached, after the nodes exist, through
+    `model.add_edge(parent, child, param)` with EXPLICIT parameters, in an arbitrary order: explicit positions
+    (0 attached last, sparse positions, positions continuing after constructor parents), named parameters and the
+    implicit `None` = next free position, mixed.  Every child's declared positions are distinct (two parents on one
+    position are outside the property, DESIGN.md 11.5).  Returns (spec, attach):
+      spec   - node dicts in CREATION order (as gen_spec, plus 'ctor' = how many of the positional parents, the ones
+               declared for positions 0..ctor-1, are passed to the constructor; the creation order respects only these
+               constructor edges, so a child may be created before the parents attached to it later);
+      attach - [parent, child, param passed to add_edge (int | str | None), declared param (int | str)] in call order."""
+    base = gen_spec(rng, n_nodes)
+    attach = []
+    for nd in base:
+        pars = [p for p, _ in sorted(nd['parents'], key=lambda x: x[1])]
+        if nd['kind'] == 'const':
+            nd['ctor'] = 0
+            continue
+        must = 1 if nd['kind'] in ('summary', 'disc') else 0      # these constructors insist on a parent
+        mode = rng.choice(['explicit', 'explicit', 'explicit', 'tail', 'ctor'])
+        if mode == 'ctor' or len(pars) <= must:
+            k0 = len(pars)
+        elif mode == 'tail':
+            k0 = rng.randint(must, len(pars) - 1)
+        else:
+            k0 = must
+        nexp = len(pars) - k0
+        if nexp and rng.random() < 0.4:
+            pos = sorted(rng.sample(range(k0, k0 + nexp + 3), nexp))        # sparse positions
+        else:
+            pos = list(range(k0, k0 + nexp))
+        nd['parents'] = [[p, k] for k, p in enumerate(pars[:k0])] + [[p, k] for p, k in zip(pars[k0:], pos)]
+        nd['ctor'] = k0
+        for p, k in nd['parents'][k0:]:
+            attach.append([p, nd['name'], k, k])
+        for p, kw in nd['named']:
+            attach.append([p, nd['name'], kw, kw])
+        nd['named_attached'] = True
+    rng.shuffle(attach)
+    # the implicit form: add_edge(parent, child) declares the next free position
+    have = {nd['name']: set(range(nd['ctor'])) for nd in base}
+    for a in attach:
+        if isinstance(a[3], int):
+            h = have[a[1]]
+            if h == set(range(len(h))) and a[3] == len(h) and rng.random() < 0.35:
+                a[2] = None
+            h.add(a[3])
+    # creation order: any order in which the constructor parents of a node exist before it
+    remaining = list(base)
+    done = []
+    while remaining:
+        ready = [s for s in remaining if all(p in done for p, _ in s['parents'][:s['ctor']])]
+        s = rng.choice(ready)
+        done.append(s['name'])
+        remaining.remove(s)
+    spec = [next(s for s in base if s['name'] == n) for n in done]
+    return spec, attach
+
+
+def _make_node(m, nd, ps, rec):
+    import elfi
+    nm = nd['name']
+    k = nd['kind']
+    if k == 'const':
+        return elfi.Constant(nd['value'], name=nm, model=m)
+    if k == 'op':
+        return elfi.Operation(rec_op(rec, nm), *ps, name=nm, model=m)
+    if k == 'prior':
+        return elfi.Prior(RecDist(rec, nm), *ps, name=nm, model=m)
+    if k == 'sim':
+        return elfi.Simulator(rec_op(rec, nm), *ps, name=nm, model=m, observed=nd['observed'])
+    if k == 'summary':
+        return elfi.Summary(rec_op(rec, nm), *ps, name=nm, model=m, observed=nd['observed'])
+    if k == 'disc':
+        return elfi.Discrepancy(rec_op(rec, nm), *ps, name=nm, model=m)
+    raise ValueError(k)
+
+
+def build_model_explicit(spec, attach, rec):
+    """Create the real ElfiModel of gen_explicit_spec: the nodes in spec order with their constructor parents, then
+    the `attach` calls of model.add_edge in their order.  Returns (model, refs)."""
+    import elfi
+    m = elfi.ElfiModel(name='m')
+    refs = {}
+    for nd in spec:
+        k0 = nd.get('ctor', len(nd['parents']))
+        ps = [refs[p] for p, _ in sorted(nd['parents'], key=lambda x: x[1])[:k0]]
+        r = _make_node(m, nd, ps, rec)
+        if not nd.get('named_attached'):
+            for p, kw in nd.get('named', []):
+                m.add_edge(p, nd['name'], kw)
+        if nd.get('uses_meta'):
+            r.uses_meta = True
+            if nd['uses_meta'] == 'off':
+                r.uses_meta = False
+        refs[nd['name']] = r
+    for p, c, passed, _ in attach:
+        if passed is None:
+            m.add_edge(p, c)
+        else:
+            m.add_edge(p, c, passed)
+    return m, refs
+
+
+def declared_edges(spec, attach=(), extra=()):
+    """The DECLARED dependencies of a model specification: (parent, child, param) for every positional parent (with
+    its declared position: the constructor's argument index or the explicit index), every named parent and every
+    explicitly attached edge, in declaration order (constructor edges at the child's creation, then `attach`, then
+    `extra`)."""
+    out = []
+    for nd in spec:
+        k0 = nd.get('ctor', len(nd['parents']))
+        for p, k in sorted(nd['parents'], key=lambda x: x[1])[:k0]:
+            out.append((p, nd['name'], k))
+        if not nd.get('named_attached'):
+            for p, kw in nd.get('named', []):
+                out.append((p, nd['name'], kw))
+    for a in attach:
+        out.append((a[0], a[1], a[3]))
+    out.extend(tuple(e) for e in extra)
+    return out
+
+
+def decl_in_net_order(declared, node_order):
+    """Present a declaration (a set of triples) the way networkx lists a DiGraph's edges: grouped by source node in
+    node order, the edges of one source in declaration order."""
+    idx = {n: i for i, n in enumerate(node_order)}
+    return [e for _, _, e in sorted((idx.get(e[0], len(idx)), i, e) for i, e in enumerate(declared))]
+
+
+def cedges(edges):
+    return clist(['(%s, %s, %s)' % (cstr(u), cstr(v), cparam(p)) for u, v, p in edges])
